@@ -13,6 +13,12 @@
 (*   Stats      scale-stats d                                  (read-only)  *)
 (*   AllInOne   volume-to-precomputed-pyramid [--type T] [--encoding E]     *)
 (*                 [--downscaling-method M] VOL d                           *)
+(*   Edit       the user edits d/info by hand before any chunk is written   *)
+(*              (examples.rst: "info was edited to contain the desired      *)
+(*              sharding specification"; widening "data_type"): sets the    *)
+(*              sharding the info declares; the data type is not part of    *)
+(*              the abstract state (sh = "keep": only the data type is      *)
+(*              edited).  Performed by the harness, not a tool.             *)
 (*                                                                          *)
 (* Contents are ABSTRACT: a scale's decoded voxels are a content id -        *)
 (* "map" (the input volume mapped to the info's data type), "D<m>(<c>)" (c  *)
@@ -63,7 +69,8 @@ CONSTANTS Dirs,        \* directory names, e.g. {"A", "B"}
           Maxes,       \* subset of {"all", "two", "one"} (--max-scales)
           Methods,     \* subset of {"auto", "average", "majority", "stride"}
           Shardings,   \* subset of {"nosh", "s110"} (--sharding on GenInfo)
-          CfgSpace,    \* set of [perfect : BOOLEAN] input classes
+          CfgSpace,    \* set of input classes [perfect : BOOLEAN (data type needs no
+                       \* adjustment), nall : 1..3 (scales generated without --max-scales)]
           MaxLen,      \* program length bound
           AioForwardsMethod, CopyInfoLayout
 
@@ -77,7 +84,9 @@ vars == <<cfg, dirs, prov, n>>
 U == "-"
 MaxScales == 3
 Scales == 1..MaxScales
-NScales(mx) == IF mx = "one" THEN 1 ELSE IF mx = "two" THEN 2 ELSE MaxScales
+NScales(mx, cf) == IF mx = "one" THEN 1
+                   ELSE IF mx = "two" THEN (IF cf.nall < 2 THEN cf.nall ELSE 2)
+                   ELSE cf.nall
 
 \* ---- commands (uniform records so that they travel as JSON) -------------
 Cmd(op, d, src, type, enc, mx, m, sh, copy) ==
@@ -95,6 +104,7 @@ Alphabet ==
   \cup {Cmd("Stats", d, U, U, U, U, U, U, U) : d \in Dirs}
   \cup {Cmd("AllInOne", d, U, te[1], te[2], U, m, U, U) :
           d \in Dirs, te \in TypeEncs, m \in Methods}
+  \cup {Cmd("Edit", d, U, U, U, U, U, sh, U) : d \in Dirs, sh \in Shardings}
 
 \* ---- directory states ----------------------------------------------------
 NoInfo == [type |-> U, enc |-> U, n |-> 0, sh |-> U]
@@ -117,15 +127,15 @@ Pyramid(ch, k, m) ==
       c3 == Down(m, c2)
   IN [i \in Scales |-> IF i = 1 \/ i > k THEN ch[i] ELSE IF i = 2 THEN c2 ELSE c3]
 
-RunGenInfo(c, D, perfect) ==
+RunGenInfo(c, D, cf) ==
   IF D[c.d].fullres # "absent" THEN Res(D, 1)
   ELSE Res([D EXCEPT ![c.d].fullres = c.sh, ![c.d].transform = TRUE],
-           IF perfect THEN 0 ELSE 4)
+           IF cf.perfect THEN 0 ELSE 4)
 
-RunGenScales(c, D) ==
+RunGenScales(c, D, cf) ==
   IF D[c.src].fullres = "absent" \/ D[c.d].info.n # 0 THEN Res(D, 1)
   ELSE Res([D EXCEPT ![c.d].info = [type |-> c.type, enc |-> c.enc,
-                                    n |-> NScales(c.max), sh |-> D[c.src].fullres]], 0)
+                                    n |-> NScales(c.max, cf), sh |-> D[c.src].fullres]], 0)
 
 RunVol(c, D) ==
   IF D[c.d].info.n = 0 THEN Res(D, 1)
@@ -161,24 +171,32 @@ RunConvert(c, D) ==
 
 RunStats(c, D) == IF D[c.d].info.n = 0 THEN Res(D, 1) ELSE Res(D, 0)
 
-RunAllInOne(c, D) ==
+RunAllInOne(c, D, cf) ==
   IF D[c.d].info.n # 0 THEN Res(D, 1)
-  ELSE LET k == NScales("all")
+  ELSE LET k == NScales("all", cf)
            m == Resolve(IF AioForwardsMethod THEN c.m ELSE "auto", c.type)
            base == [D[c.d].chunks EXCEPT ![1] = "map"]
        IN Res([D EXCEPT ![c.d].info = [type |-> c.type, enc |-> c.enc, n |-> k, sh |-> "nosh"],
                         ![c.d].chunks = Pyramid(base, k, m),
                         ![c.d].mis = {}], 0)
 
-\* THE design function: result of running command c in directory state D
-Run(c, D, perfect) ==
-  CASE c.op = "GenInfo"   -> RunGenInfo(c, D, perfect)
-    [] c.op = "GenScales" -> RunGenScales(c, D)
+\* hand edit of the info: only before any chunk exists (the harness refuses
+\* otherwise and reports exit status 1)
+RunEdit(c, D) ==
+  IF D[c.d].info.n = 0 \/ \E i \in Scales : D[c.d].chunks[i] # "absent" THEN Res(D, 1)
+  ELSE Res([D EXCEPT ![c.d].info.sh = IF c.sh = "keep" THEN @ ELSE c.sh], 0)
+
+\* THE design function: result of running command c in directory state D for
+\* input class cf
+Run(c, D, cf) ==
+  CASE c.op = "GenInfo"   -> RunGenInfo(c, D, cf)
+    [] c.op = "GenScales" -> RunGenScales(c, D, cf)
     [] c.op = "Vol"       -> RunVol(c, D)
     [] c.op = "Compute"   -> RunCompute(c, D)
     [] c.op = "Convert"   -> RunConvert(c, D)
     [] c.op = "Stats"     -> RunStats(c, D)
-    [] c.op = "AllInOne"  -> RunAllInOne(c, D)
+    [] c.op = "AllInOne"  -> RunAllInOne(c, D, cf)
+    [] c.op = "Edit"      -> RunEdit(c, D)
 
 Succ(e) == e = 0
 GenInfoOk(e) == e = 0 \/ e = 4
@@ -217,7 +235,7 @@ Init == /\ cfg \in CfgSpace
         /\ prov = [d \in Dirs |-> PEmpty]
         /\ n = 0
 
-Do(c) == LET r == Run(c, dirs, cfg.perfect) IN
+Do(c) == LET r == Run(c, dirs, cfg) IN
          /\ n < MaxLen
          /\ dirs' = r.dirs
          /\ prov' = [prov EXCEPT ![c.d] = ProvStep(@, c, r.exit)]
@@ -239,9 +257,9 @@ AllInOneEqualsSteps ==
 \* (b) repeating a step on its own output changes nothing
 RepeatIsNoop ==
   \A c \in Alphabet :
-     LET r1 == Run(c, dirs, cfg.perfect) IN
+     LET r1 == Run(c, dirs, cfg) IN
      (Succ(r1.exit) \/ (c.op = "GenInfo" /\ GenInfoOk(r1.exit)))
-        => Run(c, r1.dirs, cfg.perfect).dirs = r1.dirs
+        => Run(c, r1.dirs, cfg).dirs = r1.dirs
 
 \* (c) exit status 0 => everything the step is responsible for exists and is readable
 Complete(c, D) ==
@@ -253,16 +271,17 @@ Complete(c, D) ==
     [] c.op = "Convert"   -> ds.info.n # 0 /\ \A i \in 1..ds.info.n : Readable(ds, i)
     [] c.op = "AllInOne"  -> ds.info.n # 0 /\ \A i \in 1..ds.info.n : Readable(ds, i)
     [] c.op = "Stats"     -> TRUE
+    [] c.op = "Edit"      -> ds.info.n # 0
 
 SuccessMeansComplete ==
   \A c \in Alphabet :
-     LET r == Run(c, dirs, cfg.perfect) IN Succ(r.exit) => Complete(c, r.dirs)
+     LET r == Run(c, dirs, cfg) IN Succ(r.exit) => Complete(c, r.dirs)
 
 \* (d) the source of a conversion (and every directory a command does not
 \*     name as its destination) is left alone; scale-stats changes nothing
 SourceUntouched ==
   \A c \in Alphabet :
-     LET r == Run(c, dirs, cfg.perfect) IN
+     LET r == Run(c, dirs, cfg) IN
      /\ \A d \in Dirs \ {c.d} : r.dirs[d] = dirs[d]
      /\ c.op = "Stats" => r.dirs = dirs
 
@@ -271,7 +290,7 @@ SourceUntouched ==
 ConvertPreserves ==
   \A c \in Alphabet :
      c.op = "Convert" =>
-       LET r == Run(c, dirs, cfg.perfect) IN
+       LET r == Run(c, dirs, cfg) IN
        Succ(r.exit) => \A i \in 1..r.dirs[c.d].info.n :
                           r.dirs[c.d].chunks[i] = dirs[c.src].chunks[i]
 
